@@ -2014,7 +2014,15 @@ class IMAPClientCommand:
         if mbox_name is None:
             mbox_name = self._p_astring()
         if mbox_name != "":
-            return os.path.normpath(mbox_name)
+            name = os.path.normpath(mbox_name)
+            # One leading "/" is tolerated (and ignored by the user server).
+            # What then still is absolute, or climbs out of the top of the
+            # hierarchy, is not the name of one of the user's mailboxes.
+            #
+            rel = name[1:] if name.startswith("/") else name
+            if rel.startswith("/") or rel == ".." or rel.startswith("../"):
+                raise BadSyntax(f"invalid mailbox name: '{mbox_name}'")
+            return name
         else:
             return mbox_name
 
